@@ -24,12 +24,21 @@ WALL_NORMAL = 20.0      # a legitimate small run takes well under a second
 WALL_DIVERGE = 0.5      # budget given to runs that the model predicts to diverge (alpha = 0)
 
 
-class PathTimeout(Exception):
+class PathTimeout(BaseException):       # not an Exception: library code must not swallow it
     pass
 
 
+class _Timer:
+    armed = False
+    fired = False
+
+
 def _alarm(signum, frame):
-    raise PathTimeout()
+    # repeating timer: keeps interrupting until the run unwinds (an interrupt raised inside C code that
+    # calls back into Python can be replaced by another exception or dropped)
+    if _Timer.armed:
+        _Timer.fired = True
+        raise PathTimeout()
 
 
 WARN_KINDS = [("alpha multiplier is lower", "mult"), ("threshold to keep the best", "keep"),
@@ -85,22 +94,31 @@ def run_traced(est, X, y, kwargs, wall):
     out = {"events": events, "outcome": None, "result": None, "error": None}
     t0 = time.time()
     old = signal.signal(signal.SIGALRM, _alarm)
-    signal.setitimer(signal.ITIMER_REAL, wall)
+    _Timer.fired = False
+    _Timer.armed = True
+    signal.setitimer(signal.ITIMER_REAL, wall, 0.05)
     try:
         with warnings.catch_warnings(record=True) as ws:
             warnings.simplefilter("always")
             try:
                 out["result"] = est.path(X, y, **kwargs)
+                _Timer.armed = False
                 out["outcome"] = "returned"
-            except PathTimeout:
-                out["outcome"] = "timeout"
-            except Exception as e:  # noqa
-                out["outcome"] = type(e).__name__
-                out["error"] = str(e)[:200]
+            except BaseException as e:  # noqa
+                _Timer.armed = False
+                if _Timer.fired:
+                    out["outcome"] = "timeout"      # whatever the interrupt was turned into on its way up
+                elif isinstance(e, Exception):
+                    out["outcome"] = type(e).__name__
+                    out["error"] = str(e)[:200]
+                else:
+                    raise
             finally:
+                _Timer.armed = False
                 signal.setitimer(signal.ITIMER_REAL, 0)
         out["warn"], out["other_warnings"] = classify_warnings(ws)
     finally:
+        _Timer.armed = False
         signal.setitimer(signal.ITIMER_REAL, 0)
         signal.signal(signal.SIGALRM, old)
         B.compute_val_score = orig_cvs
@@ -593,6 +611,10 @@ def main():
         chk.seed = rp.get("seed", chk.seed)
         if st in STREAMS and isinstance(case, int):
             chk.run_stream(st, STREAMS[st][0], 0, only=case)
+        elif "estimator" in rp["input"]:          # corpus case or hand-written case: the input is the case itself
+            chk.cur = ("replay", 0)
+            check_case(chk, {k: v for k, v in rp["input"].items() if k not in ("stream", "case")}, "replay")
+            chk.cur = None
     else:
         run_corpus(chk)
         for name, (fn, q, th) in STREAMS.items():
